@@ -69,10 +69,10 @@ Definition leak_of (c : cfg) (st : astate) (nx : N) (o : op) : list N :=
               | Some (_, _, i, j) =>
                   match f with FinForget => firstn (j - i) (skipn i xs) ++ skipn (N.to_nat e) xs | FinDrop => [] end
               | None =>
-                  match sp_walk_mv c v xs pat (N.to_nat s) (N.to_nat e) (set_a v (Some (with_xs a (firstn (N.to_nat s) xs))) st) with
-                  | Some (WDone _ _ i j _ lost) =>
+                  match sp_walk_mv c v xs pat (N.to_nat s) (N.to_nat e) (set_a v (Some (with_xs a (firstn (N.to_nat s) xs))) st) nx with
+                  | Some (WDone _ _ i j _ lost _) =>
                       lost ++ match f with FinForget => firstn (j - i) (skipn i xs) ++ skipn (N.to_nat e) xs | FinDrop => [] end
-                  | Some (WStop _ _ _ _ _ lost) => lost
+                  | Some (WStop _ _ _ _ _ lost _) => lost
                   | None => []
                   end
               end
@@ -108,8 +108,8 @@ Definition leak_of (c : cfg) (st : astate) (nx : N) (o : op) : list N :=
                   end
               | None =>
                   (* items moved elsewhere or forgotten ([sp_splice_mv]) *)
-                  match sp_walk_mv c v xs pat (N.to_nat s) (N.to_nat e) (set_a v (Some (with_xs a (firstn (N.to_nat s) xs))) st) with
-                  | Some (WDone _ _ i j _ lost) =>
+                  match sp_walk_mv c v xs pat (N.to_nat s) (N.to_nat e) (set_a v (Some (with_xs a (firstn (N.to_nat s) xs))) st) (nx + n) with
+                  | Some (WDone _ _ i j _ lost _) =>
                       let hidden := firstn (j - i) (skipn i xs) ++ skipn (N.to_nat e) xs in
                       lost ++ match f with
                               | FinForget => hidden ++ next_ids c nx (N.to_nat n)
@@ -119,7 +119,7 @@ Definition leak_of (c : cfg) (st : astate) (nx : N) (o : op) : list N :=
                                   | inr _ => []
                                   end
                               end
-                  | Some (WStop _ _ _ _ _ lost) => lost
+                  | Some (WStop _ _ _ _ _ lost _) => lost
                   | None => []
                   end
               end
@@ -657,35 +657,67 @@ Proof.
   rewrite get_a_nth. unfold set_a. revert st. induction v as [|v IH]; intros st; destruct st as [|y st]; cbn [set_nth nth]; auto.
 Qed.
 
-(** one item of a moving walk: the value ends up in exactly one place *)
-Lemma sp_item_perm v st t sk :
-  match sp_item c v st t sk with
-  | Some (inl (out, evs0, st1, lost0)) =>
-      Permutation (t :: vis st) (vis st1 ++ drops evs0 ++ lost0) /\ get_a v st1 = get_a v st
-  | Some (inr (p, evs0)) => drops evs0 = [t]
+(** one item of a moving walk: the value - and every lazy clone made of it - ends up in exactly one place *)
+Ltac perm_count2 := perm_count; rewrite ?cnt_app, ?cnt_cons, ?cnt_nil in *; lia.
+
+Lemma sp_item_perm v : forall sk st nx t, 1 <= nx ->
+  match sp_item c v st nx t sk with
+  | Some (inl (out, evs0, st1, lost0, nx1)) =>
+      exists news, created c nx1 = created c nx ++ news /\
+        Permutation (t :: vis st ++ news) (vis st1 ++ drops evs0 ++ lost0) /\ get_a v st1 = get_a v st /\ nx <= nx1
+  | Some (inr (p, evs0, st1, nx1)) =>
+      exists news, created c nx1 = created c nx ++ news /\
+        Permutation (t :: vis st ++ news) (vis st1 ++ drops evs0) /\ get_a v st1 = get_a v st /\ nx <= nx1
   | None => True
   end.
 Proof.
-  assert (Hd : drops (drop_ev c t) = [t]) by (apply drops_drop_ev; exact Hdg).
-  destruct sk as [| |dst|dst j| | | | |]; cbn [sp_item]; try exact I;
-    try (split; [rewrite Hd; cbn [app]; perm_count|reflexivity]).
+  induction sk as [| |dst|dst j| |sk' IH|n0 dst sk' IH|n0 sk' IH|]; intros st nx t Hnx; cbn [sp_item]; try exact I;
+    pose proof (drops_drop_ev c t Hdg) as Hd;
+    try (exists []; rewrite !app_nil_r; split; [reflexivity|]; split; [rewrite ?Hd; cbn [drops flat_map app]; perm_count2|]; split; [reflexivity|lia]).
   - destruct (Nat.eqb_spec dst v) as [|Hne]; [exact I|].
     destruct (get_a dst st) as [b|] eqn:Hgb; [|exact I].
-    destruct (put_value c b None t) as [ys'|p] eqn:Epv; [|exact Hd].
-    split; [|apply get_a_set_other'; intros X; apply Hne; symmetry; exact X].
-    destruct (vis_replace st dst b ys' Hgb) as (R & H1 & H2 & _).
-    pose proof (put_value_perm c b None t ys' Epv) as H3. cbn [drops flat_map app]. perm_count.
+    destruct (put_value c b None t) as [ys'|p] eqn:Epv.
+    + exists []. rewrite !app_nil_r. split; [reflexivity|]. split; [|split; [apply get_a_set_other'; intros X; apply Hne; symmetry; exact X|lia]].
+      destruct (vis_replace st dst b ys' Hgb) as (R & H1 & H2 & _).
+      pose proof (put_value_perm c b None t ys' Epv) as H3. cbn [drops flat_map app]. perm_count2.
+    + exists []. rewrite !app_nil_r. split; [reflexivity|]. split; [rewrite Hd; perm_count2|]. split; [reflexivity|lia].
   - destruct (Nat.eqb_spec dst v) as [|Hne]; [exact I|].
     destruct (get_a dst st) as [b|] eqn:Hgb; [|exact I].
-    destruct (put_value c b (Some j) t) as [ys'|p] eqn:Epv; [|exact Hd].
-    split; [|apply get_a_set_other'; intros X; apply Hne; symmetry; exact X].
-    destruct (vis_replace st dst b ys' Hgb) as (R & H1 & H2 & _).
-    pose proof (put_value_perm c b (Some j) t ys' Epv) as H3. cbn [drops flat_map app]. perm_count.
-  - split; [cbn [drops flat_map app]; perm_count|reflexivity].
+    destruct (put_value c b (Some j) t) as [ys'|p] eqn:Epv.
+    + exists []. rewrite !app_nil_r. split; [reflexivity|]. split; [|split; [apply get_a_set_other'; intros X; apply Hne; symmetry; exact X|lia]].
+      destruct (vis_replace st dst b ys' Hgb) as (R & H1 & H2 & _).
+      pose proof (put_value_perm c b (Some j) t ys' Epv) as H3. cbn [drops flat_map app]. perm_count2.
+    + exists []. rewrite !app_nil_r. split; [reflexivity|]. split; [rewrite Hd; perm_count2|]. split; [reflexivity|lia].
+  - (* KLazy *)
+    destruct (Nat.eqb_spec dst v) as [|Hne]; [exact I|].
+    destruct (get_a dst st) as [b|] eqn:Hgb; [|exact I].
+    destruct (sp_lazy_pushes c b t nx (N.to_nat n0)) as [[[b' evs] nx'] ok] eqn:Esp.
+    destruct (lazy_pushes_own t _ _ _ _ _ _ _ Hnx Esp) as (ids & Hb' & Hcr & Hdr & Hge).
+    set (st1 := set_a dst (Some b') st) in *.
+    assert (Hg1 : get_a v st1 = get_a v st) by (apply get_a_set_other'; intros X; apply Hne; symmetry; exact X).
+    pose proof (vis_get_any st dst) as Hv. rewrite Hgb in Hv. cbn [slot_xs] in Hv.
+    pose proof (vis_set_any st dst (Some b')) as H1. fold st1 in H1. cbn [slot_xs] in H1. rewrite Hb' in H1.
+    destruct ok.
+    + assert (Hnx' : 1 <= nx') by lia.
+      specialize (IH st1 nx' t Hnx').
+      destruct (sp_item c v st1 nx' t sk') as [[[[[[out evs2] st2] lost2] nx2]|[[[p evs2] st2] nx2]]|]; [| |exact I];
+        destruct IH as (news & Hc2 & Hp2 & Hg2 & Hge2); exists (ids ++ news);
+        (split; [rewrite Hc2, Hcr, app_assoc; reflexivity|]);
+        (split; [rewrite drops_app, Hdr; cbn [app]; perm_count2|split; [congruence|lia]]).
+    + exists ids. split; [exact Hcr|]. split; [rewrite drops_app, Hdr, Hd; cbn [app]; perm_count2|]. split; [exact Hg1|exact Hge].
+  - (* KLazyDown *)
+    assert (Hcr : created c (nx + n0) = created c nx ++ next_ids c nx (N.to_nat n0)).
+    { replace (nx + n0) with (nx + N.of_nat (N.to_nat n0)) by lia. apply created_add. exact Hnx. }
+    assert (Hnx' : 1 <= nx + n0) by lia.
+    specialize (IH st (nx + n0) t Hnx').
+    destruct (sp_item c v st (nx + n0) t sk') as [[[[[[out evs2] st2] lost2] nx2]|[[[p evs2] st2] nx2]]|]; [| |exact I];
+      destruct IH as (news & Hc2 & Hp2 & Hg2 & Hge2); exists (next_ids c nx (N.to_nat n0) ++ news);
+      (split; [rewrite Hc2, Hcr, app_assoc; reflexivity|]);
+      (split; [rewrite drops_app, drops_lazy; perm_count2|split; [exact Hg2|lia]]).
 Qed.
 
-Definition wres_parts (r : wres) : list event * nat * nat * astate * list N :=
-  match r with WDone _ evs i j st lost | WStop _ evs i j st lost => (evs, i, j, st, lost) end.
+Definition wres_parts (r : wres) : list event * nat * nat * astate * list N * N :=
+  match r with WDone _ evs i j st lost nx | WStop _ evs i j st lost nx => (evs, i, j, st, lost, nx) end.
 
 Lemma range_step_front (xs : list N) i j : (i < j)%nat -> (j <= length xs)%nat ->
   firstn (j - i) (skipn i xs) = nth i xs 0 :: firstn (j - S i) (skipn (S i) xs).
@@ -706,20 +738,22 @@ Proof.
   rewrite Hl. symmetry. apply Permutation_cons_append.
 Qed.
 
-(** a moving walk: every value of the cursor's range is destroyed, leaked, still un-yielded or in another vector *)
-Lemma sp_walk_mv_perm v xs : forall pat i j st r,
-  (i <= j)%nat -> (j <= length xs)%nat ->
-  sp_walk_mv c v xs pat i j st = Some r ->
-  let '(evs, i', j', st', lost) := wres_parts r in
-  Permutation (vis st ++ firstn (j - i) (skipn i xs)) (vis st' ++ drops evs ++ lost ++ firstn (j' - i') (skipn i' xs)) /\
-  (i <= i')%nat /\ (i' <= j')%nat /\ (j' <= j)%nat /\ get_a v st' = get_a v st.
+(** a moving walk: every value of the cursor's range - and every clone made on the way - is destroyed, leaked, still
+    un-yielded or in another vector *)
+Lemma sp_walk_mv_perm v xs : forall pat i j st nx r,
+  (i <= j)%nat -> (j <= length xs)%nat -> 1 <= nx ->
+  sp_walk_mv c v xs pat i j st nx = Some r ->
+  let '(evs, i', j', st', lost, nx') := wres_parts r in
+  exists news, created c nx' = created c nx ++ news /\
+  Permutation (vis st ++ firstn (j - i) (skipn i xs) ++ news) (vis st' ++ drops evs ++ lost ++ firstn (j' - i') (skipn i' xs)) /\
+  (i <= i')%nat /\ (i' <= j')%nat /\ (j' <= j)%nat /\ get_a v st' = get_a v st /\ nx <= nx'.
 Proof.
-  induction pat as [|[front sk] pat IH]; intros i j st r Hij Hj Hs; cbn [sp_walk_mv] in Hs.
-  - injection Hs as <-. cbn [wres_parts drops flat_map app]. split; [reflexivity|]. repeat split; lia.
+  induction pat as [|[front sk] pat IH]; intros i j st nx r Hij Hj Hnx Hs; cbn [sp_walk_mv] in Hs.
+  - injection Hs as <-. cbn [wres_parts drops flat_map app]. exists []. rewrite !app_nil_r. split; [reflexivity|]. split; [reflexivity|]. repeat split; lia.
   - destruct (Nat.eqb_spec i j) as [Heq|Hne].
-    + destruct (sp_walk_mv c v xs pat i j st) as [r0|] eqn:E; [|discriminate].
-      specialize (IH i j st r0 Hij Hj E).
-      destruct r0 as [rets0 evs0 i0 j0 st0 lost0|p0 evs0 i0 j0 st0 lost0]; injection Hs as <-; exact IH.
+    + destruct (sp_walk_mv c v xs pat i j st nx) as [r0|] eqn:E; [|discriminate].
+      specialize (IH i j st nx r0 Hij Hj Hnx E).
+      destruct r0 as [rets0 evs0 i0 j0 st0 lost0 nx0|p0 evs0 i0 j0 st0 lost0 nx0]; injection Hs as <-; exact IH.
     + set (idx := if front then i else (j - 1)%nat) in *.
       set (i1 := if front then S i else i) in *. set (j1 := if front then j else (j - 1)%nat) in *.
       set (t := nth idx xs 0) in *.
@@ -727,29 +761,34 @@ Proof.
       { unfold t, idx, i1, j1. destruct front.
         - rewrite (range_step_front xs i j) by lia. reflexivity.
         - apply range_step_back; lia. }
-      pose proof (sp_item_perm v st t sk) as Hitem.
-      destruct (sp_item c v st t sk) as [[[[[out evs0] st1] lost0]|[p evs0]]|]; [| |discriminate].
-      * destruct Hitem as [Hp1 Hg1].
-        destruct (sp_walk_mv c v xs pat i1 j1 st1) as [r0|] eqn:E; [|discriminate].
+      pose proof (sp_item_perm v sk st nx t Hnx) as Hitem.
+      destruct (sp_item c v st nx t sk) as [[[[[[out evs0] st1] lost0] nx1]|[[[p evs0] st1] nx1]]|]; [| |discriminate].
+      * destruct Hitem as (news1 & Hc1 & Hp1 & Hg1 & Hge1).
+        destruct (sp_walk_mv c v xs pat i1 j1 st1 nx1) as [r0|] eqn:E; [|discriminate].
         assert (H1 : (i1 <= j1)%nat /\ (j1 <= length xs)%nat) by (unfold i1, j1; destruct front; lia).
-        specialize (IH i1 j1 st1 r0 (proj1 H1) (proj2 H1) E).
-        destruct r0 as [rets0 evs1 i0 j0 st0 lost1|p0 evs1 i0 j0 st0 lost1]; injection Hs as <-;
-          cbn [wres_parts] in IH |- *; destruct IH as (Hp2 & Hb1 & Hb2 & Hb3 & Hg2);
-          (split; [rewrite drops_app; perm_count|]);
+        assert (Hnx1 : 1 <= nx1) by lia.
+        specialize (IH i1 j1 st1 nx1 r0 (proj1 H1) (proj2 H1) Hnx1 E).
+        destruct r0 as [rets0 evs1 i0 j0 st0 lost1 nx0|p0 evs1 i0 j0 st0 lost1 nx0]; injection Hs as <-;
+          cbn [wres_parts] in IH |- *; destruct IH as (news2 & Hc2 & Hp2 & Hb1 & Hb2 & Hb3 & Hg2 & Hge2);
+          exists (news1 ++ news2);
+          (split; [rewrite Hc2, Hc1, app_assoc; reflexivity|]);
+          (split; [rewrite drops_app; perm_count2|]);
           (split; [unfold i1 in Hb1; destruct front; lia|]); (split; [exact Hb2|]);
-          (split; [unfold j1 in Hb3; destruct front; lia|congruence]).
-      * injection Hs as <-. cbn [wres_parts app]. split; [rewrite Hitem; perm_count|].
-        unfold i1, j1. repeat split; destruct front; lia.
+          (split; [unfold j1 in Hb3; destruct front; lia|split; [congruence|lia]]).
+      * destruct Hitem as (news1 & Hc1 & Hp1 & Hg1 & Hge1).
+        injection Hs as <-. cbn [wres_parts app]. exists news1. split; [exact Hc1|]. split; [perm_count2|].
+        unfold i1, j1. repeat split; try (destruct front; lia); exact Hg1.
 Qed.
 
 Lemma drain_mv_own st nx v sb eb pat f r D L :
+  1 <= nx ->
   sp_drain c st nx v sb eb pat f = None ->
   sp_drain_mv c st nx v sb eb pat f = Some r ->
   Permutation (created c nx) (vis st ++ D ++ L) ->
   Permutation (created c (s_nx r))
     (vis (s_st r) ++ (D ++ drops (s_evs r)) ++ (L ++ leak_of c st nx (ODrain Erased v sb eb pat f))).
 Proof.
-  intros Hnone Hr Hinv. unfold sp_drain in Hnone. unfold sp_drain_mv in Hr. cbn [leak_of].
+  intros Hnx Hnone Hr Hinv. unfold sp_drain in Hnone. unfold sp_drain_mv in Hr. cbn [leak_of].
   destruct (get_a v st) as [a|] eqn:Hg; [|discriminate]. cbv zeta in Hr, Hnone.
   set (xs := a_xs a) in *.
   pose proof (vis_get_any st v) as Hvis. rewrite Hg in Hvis. cbn [slot_xs] in Hvis. fold xs in Hvis.
@@ -766,26 +805,26 @@ Proof.
   assert (Hse : (s <= e)%nat) by lia. assert (Hel : (e <= length xs)%nat) by lia.
   destruct (sp_walk xs pat s e) as [[[[rets0 ds0] i0] j0]|] eqn:Ew; [destruct f; discriminate|]. clear Hnone.
   set (hidden := set_a v (Some (with_xs a (firstn s xs))) st) in *.
-  destruct (sp_walk_mv c v xs pat s e hidden) as [wr|] eqn:Em; [|discriminate].
-  pose proof (sp_walk_mv_perm v xs pat s e hidden wr Hse Hel Em) as Hw.
+  destruct (sp_walk_mv c v xs pat s e hidden nx) as [wr|] eqn:Em; [|discriminate].
+  pose proof (sp_walk_mv_perm v xs pat s e hidden nx wr Hse Hel Hnx Em) as Hw.
   pose proof (vis_set_any st v (Some (with_xs a (firstn s xs)))) as Hh. cbn [slot_xs with_xs a_xs] in Hh. fold hidden in Hh.
   pose proof (sp_drain_perm xs s e Hse Hel) as Hd. unfold sp_drained in Hd.
   assert (Hx : Permutation xs (firstn s xs ++ firstn (e - s) (skipn s xs) ++ skipn e xs)).
   { rewrite <- (firstn_skipn s xs) at 1. apply Permutation_app_head.
     rewrite (skipn_split_range xs s e Hse) at 1. reflexivity. }
-  destruct wr as [rets evs i j st' lost|p evs i j st' lost]; cbn [wres_parts] in Hw;
-    destruct Hw as (Hp & Hb1 & Hb2 & Hb3 & Hgv).
+  destruct wr as [rets evs i j st' lost nx'|p evs i j st' lost nx']; cbn [wres_parts] in Hw;
+    destruct Hw as (news & Hcr & Hp & Hb1 & Hb2 & Hb3 & Hgv & Hge).
   - pose proof (vis_get_any st' v) as Hv'. rewrite Hgv in Hv'. unfold hidden in Hv'. rewrite get_a_set_same' in Hv'.
     cbn [slot_xs with_xs a_xs] in Hv'.
-    destruct f; injection Hr as <-; cbn [ok_res s_nx s_st s_evs]; cbv beta iota.
+    destruct f; injection Hr as <-; cbn [ok_res s_nx s_st s_evs]; cbv beta iota; rewrite Hcr.
     + pose proof (vis_set_any st' v (Some (with_xs a (VecSpec.sp_drain s e xs)))) as H1. cbn [slot_xs with_xs a_xs] in H1.
-      rewrite drops_app, Hdg, drops_map. perm_count.
-    + perm_count.
+      rewrite drops_app, Hdg, drops_map. perm_count2.
+    + perm_count2.
   - pose proof (vis_get_any st' v) as Hv'. rewrite Hgv in Hv'. unfold hidden in Hv'. rewrite get_a_set_same' in Hv'.
     cbn [slot_xs with_xs a_xs] in Hv'.
-    injection Hr as <-. cbn [panic_res s_nx s_st s_evs].
+    injection Hr as <-. cbn [panic_res s_nx s_st s_evs]. rewrite Hcr.
     pose proof (vis_set_any st' v (Some (with_xs a (VecSpec.sp_drain s e xs)))) as H1. cbn [slot_xs with_xs a_xs] in H1.
-    rewrite drops_app, Hdg, drops_map. perm_count.
+    rewrite drops_app, Hdg, drops_map. perm_count2.
 Qed.
 
 Lemma drops_nexts k : drops (repeat ENext k) = [].
@@ -945,8 +984,8 @@ Proof.
     destruct (match acap c (a_bk a) with Some cap => cap <? N.of_nat s + cl + N.of_nat (length xs - e) | None => false end); discriminate. }
   clear Hnone'.
   set (hidden := set_a v (Some (with_xs a (firstn s xs))) st) in *.
-  destruct (sp_walk_mv c v xs pat s e hidden) as [wr|] eqn:Em; [|discriminate].
-  pose proof (sp_walk_mv_perm v xs pat s e hidden wr Hse Hel Em) as Hw.
+  destruct (sp_walk_mv c v xs pat s e hidden (nx + n)) as [wr|] eqn:Em; [|discriminate].
+  pose proof (sp_walk_mv_perm v xs pat s e hidden (nx + n) wr Hse Hel ltac:(lia) Em) as Hw.
   pose proof (vis_set_any st v (Some (with_xs a (firstn s xs)))) as Hh. cbn [slot_xs with_xs a_xs] in Hh. fold hidden in Hh.
   assert (Hx : Permutation xs (firstn s xs ++ firstn (e - s) (skipn s xs) ++ skipn e xs)).
   { rewrite <- (firstn_skipn s xs) at 1. apply Permutation_app_head.
@@ -962,22 +1001,22 @@ Proof.
     split; [|reflexivity]. rewrite !drops_app, Hdg, !drops_map, drops_nexts. reflexivity. }
   set (wr' := Nat.min (N.to_nat cl) (N.to_nat n)) in *.
   assert (Hts : Permutation ts (firstn wr' ts ++ skipn wr' ts)) by (rewrite firstn_skipn; reflexivity).
-  destruct wr as [rets evs i j st' lost|p evs i j st' lost]; cbn [wres_parts] in Hw;
-    destruct Hw as (Hp & Hb1 & Hb2 & Hb3 & Hgv);
+  destruct wr as [rets evs i j st' lost nx2|p evs i j st' lost nx2]; cbn [wres_parts] in Hw;
+    destruct Hw as (news & Hcr2 & Hp & Hb1 & Hb2 & Hb3 & Hgv & Hge);
     pose proof (vis_get_any st' v) as Hv'; rewrite Hgv in Hv'; unfold hidden in Hv'; rewrite get_a_set_same' in Hv';
     cbn [slot_xs with_xs a_xs] in Hv'; specialize (Hfin i j).
   - destruct f.
     + destruct (sp_splice_fin c a s e i j ts cl n) as [p|[fevs ys]]; injection Hr as <-;
-        cbn [ok_res panic_res s_nx s_st s_evs]; rewrite Hcr.
-      * rewrite drops_app, Hdg, drops_map. perm_count.
+        cbn [ok_res panic_res s_nx s_st s_evs]; rewrite Hcr2, Hcr.
+      * rewrite drops_app, Hdg, drops_map. perm_count2.
       * destruct Hfin as [Hd ->].
         pose proof (vis_set_any st' v (Some (with_xs a (firstn s xs ++ firstn wr' ts ++ skipn e xs)))) as H1. cbn [slot_xs with_xs a_xs] in H1.
-        rewrite drops_app, Hd. perm_count.
-    + injection Hr as <-. cbn [ok_res s_nx s_st s_evs]. rewrite Hcr. perm_count.
+        rewrite drops_app, Hd. perm_count2.
+    + injection Hr as <-. cbn [ok_res s_nx s_st s_evs]. rewrite Hcr2, Hcr. perm_count2.
   - destruct (sp_splice_fin c a s e i j ts cl n) as [p'|[fevs ys]]; [discriminate|]. injection Hr as <-.
-    cbn [panic_res s_nx s_st s_evs]. rewrite Hcr. destruct Hfin as [Hd ->].
+    cbn [panic_res s_nx s_st s_evs]. rewrite Hcr2, Hcr. destruct Hfin as [Hd ->].
     pose proof (vis_set_any st' v (Some (with_xs a (firstn s xs ++ firstn wr' ts ++ skipn e xs)))) as H1. cbn [slot_xs with_xs a_xs] in H1.
-    rewrite drops_app, Hd. perm_count.
+    rewrite drops_app, Hd. perm_count2.
 Qed.
 
 Lemma new_own st nx dst bk r D L :
@@ -1237,7 +1276,7 @@ Proof.
       cbn [ok_res panic_res s_nx s_st s_evs leak_of drops flat_map]; perm_count.
   - destruct (sp_drain c st nx v sb eb pat f) as [r0|] eqn:Ed.
     + injection Hr as <-. exact (drain_own st nx v sb eb pat f r0 D L Ed Hinv).
-    + exact (drain_mv_own st nx v sb eb pat f r D L Ed Hr Hinv).
+    + exact (drain_mv_own st nx v sb eb pat f r D L Hnx Ed Hr Hinv).
   - assert (Hgen : forall rk' wa',
               match sp_splice c st nx v sb eb pat f rk' n wa' claimed with
               | Some r0 => Some r0
